@@ -99,6 +99,21 @@ Section UtlruBridge.
   Ltac crush := repeat (proj; inner; clean); proj; simpl; try congruence; auto; try arith.
   Ltac callee L := let P := fresh "P" in pose proof L as P; unfold req in P; revert P.
   Ltac finish := intros; clean; subst; try contradiction; try congruence; auto; try arith.
+  (* the lookup in the index, split on what it MEANS (assoc k (tt_index s)), not on how the source spells the test
+     against end(): both orientations of the generated `if` (negated or not, then/else swapped, early return) reduce,
+     and so does `it->second` as well as `*it` bound to a structured binding *)
+  Ltac found k s idx A :=
+    unfold mit_find, mit_second, mit_deref;
+    destruct (assoc k (tt_index s)) as [idx|] eqn:A; cbn [mit_eqb negb]; rewrite ?A; cbn [bind].
+  (* the comparisons of time points, as propositions: `now < t`, `!(now >= t)`, `t <= now` under either orientation
+     of the `if` all end in the same two cases; the contradictory combinations are closed by lia *)
+  Ltac zcases :=
+    rewrite ?Z.geb_leb, ?Z.gtb_ltb;
+    repeat match goal with
+           | |- context [(?a <? ?b)%Z] => destruct (Z.ltb_spec a b)
+           | |- context [(?a <=? ?b)%Z] => destruct (Z.leb_spec a b)
+           | |- context [(?a =? ?b)%Z] => destruct (Z.eqb_spec a b)
+           end; cbn [negb andb orb]; try (exfalso; lia).
 
   (* ---- the node list m_ttl_list against the deadline structure of TtlLit.v ---- *)
   Lemma nl_remove_eq n (o : list (Z * nat)) : nl_remove n o = ord_remove n o.
@@ -137,10 +152,13 @@ Section UtlruBridge.
     natcases; [|cbn [bind req]; reflexivity].
     destruct (tt_ord s) as [|[z idx] r]; [simpl; auto|]. cbn [bind]. unfold vref, vget.
     destruct (nth_error (tt_elems s) idx) as [e|] eqn:N; cbn [bind]; [|simpl; auto]. rewrite N. cbn [bind].
-    destruct (te_expire e <=? now)%Z.
-    - callee (g_do_erase_ok s idx). unfold bind. crush; finish.
-    - destruct (l_back (tt_list s)) as [b|]; cbn [bind]; [|simpl; auto].
-      callee (g_do_erase_ok s b). unfold bind. crush; finish.
+    zcases;
+      match goal with
+      | _ : (te_expire e <= now)%Z |- _ => callee (g_do_erase_ok s idx); unfold bind; crush; finish
+      | _ : (now < te_expire e)%Z |- _ =>
+          destruct (l_back (tt_list s)) as [b|]; cbn [bind]; [|simpl; auto];
+          callee (g_do_erase_ok s b); unfold bind; crush; finish
+      end.
   Qed.
 
   (* ---- do_ttl_position: the loop walking back from the tail, then emplace at the position found,
@@ -337,46 +355,47 @@ Section UtlruBridge.
       revert P. unfold req, bind. crush; finish.
   Qed.
 
-  Lemma mit_find_some (ix : list (K * nat)) k : negb (mit_eqb (mit_find ix k) None) = match assoc k ix with Some _ => true | None => false end.
-  Proof. unfold mit_find. destruct (assoc k ix); reflexivity. Qed.
-
   Lemma g_do_insert_update_ok (s : ttll K V) k v now ex a :
     NoDup (map snd (tt_ord s)) -> (assoc k (tt_index s) = None -> after_prune_ok s k now) ->
     req (g_do_insert_update s k v now ex a) (tt_ins true s k v a now ex).
   Proof.
-    intros N Hwf. unfold g_do_insert_update, tt_ins. rewrite mit_find_some. unfold mit_find, mit_deref.
-    destruct (assoc k (tt_index s)) as [idx|] eqn:A.
-    - destruct (a_upd a).
+    intros N Hwf. unfold g_do_insert_update, tt_ins. cbv zeta. found k s idx A.
+    - destruct (a_upd a); cbn [negb].
       + callee (g_do_update_ok s k idx v ex A N). unfold bind. crush; finish.
-      + destruct (a_ins a); [|simpl; auto]. rewrite A. cbn [bind]. unfold vref, vget.
-        destruct (nth_error (tt_elems s) idx) as [e0|] eqn:Nx; cbn [bind]; [|simpl; auto]. rewrite Nx. cbn [bind].
-        destruct (te_expire e0 <=? now)%Z; [|simpl; auto].
-        callee (g_do_update_ok s k idx v ex A N). unfold bind. crush; finish.
-    - destruct (a_ins a); [|simpl; auto].
+      + destruct (a_ins a); cbn [negb]; [|simpl; auto]. unfold vref, vget.
+        destruct (nth_error (tt_elems s) idx) as [e0|] eqn:Nx; cbn [bind]; [|simpl; auto]. rewrite ?Nx. cbn [bind].
+        zcases;
+          match goal with
+          | _ : (te_expire e0 <= now)%Z |- _ => callee (g_do_update_ok s k idx v ex A N); unfold bind; crush; finish
+          | _ : (now < te_expire e0)%Z |- _ => simpl; auto
+          end.
+    - destruct (a_ins a); cbn [negb]; [|simpl; auto].
       callee (g_do_insert_ok s k v now ex (Hwf eq_refl)). unfold bind. crush; finish.
   Qed.
 
+  Lemma tt_access_elems (s s' : ttll K V) e : tt_access s e = Ok s' -> tt_elems s' = tt_elems s.
+  Proof. unfold tt_access, bind. intros L. revert L. crush; intros Q; clean; try discriminate; auto. Qed.
+
   Lemma g_do_find_ok (s : ttll K V) k now pk : req (g_do_find s k now pk) (tt_find s k pk now).
   Proof.
-    unfold g_do_find, tt_find. rewrite mit_find_some. unfold mit_find, mit_second.
-    destruct (assoc k (tt_index s)) as [idx|] eqn:A; [|simpl; auto]. rewrite A. cbn [bind].
+    unfold g_do_find, tt_find. cbv zeta. found k s idx A; [|simpl; auto].
     pose proof (g_do_access_ok s idx) as P. revert P.
-    unfold vref, vget. destruct (nth_error (tt_elems s) idx) as [e0|] eqn:Nx; [|simpl; auto]. cbn [bind]. rewrite Nx. cbn [bind].
-    destruct (now <? te_expire e0)%Z.
-    - destruct pk; cbn [Bool.eqb]; cbn [bind].
-      + intros _. rewrite Nx. simpl. auto.
-      + unfold req, bind.
-        destruct (g_do_access s idx) as [s1|] eqn:G, (tt_access s e0) as [s2|] eqn:L; intros P; try contradiction; auto.
-        subst s2. assert (Q : tt_elems s1 = tt_elems s).
-        { unfold tt_access, bind in L. revert L. crush; intros Q; clean; try discriminate; auto. }
-        rewrite Q, Nx. auto.
-    - intros _. callee (g_do_erase_ok s idx). unfold bind. crush; finish.
+    unfold vref, vget. destruct (nth_error (tt_elems s) idx) as [e0|] eqn:Nx; [|simpl; auto]. cbn [bind]. rewrite ?Nx. cbn [bind].
+    zcases;
+      match goal with
+      | _ : (now < te_expire e0)%Z |- _ =>
+          destruct pk; cbn [Bool.eqb negb]; cbn [bind];
+          [ intros _; rewrite Nx; simpl; auto
+          | unfold req, bind;
+            destruct (g_do_access s idx) as [s1|] eqn:G, (tt_access s e0) as [s2|] eqn:L; intros P; try contradiction; auto;
+            subst s2; rewrite (tt_access_elems _ _ _ L), Nx; auto ]
+      | _ : (te_expire e0 <= now)%Z |- _ => intros _; callee (g_do_erase_ok s idx); unfold bind; crush; finish
+      end.
   Qed.
 
   Lemma g_erase_ok (s : ttll K V) k : req (g_erase s k) (tt_erase s k).
   Proof.
-    unfold g_erase, tt_erase. rewrite mit_find_some. unfold mit_find, mit_second.
-    destruct (assoc k (tt_index s)) as [idx|] eqn:A; [|simpl; auto]. rewrite A. cbn [bind].
+    unfold g_erase, tt_erase. cbv zeta. found k s idx A; [|simpl; auto].
     callee (g_do_erase_ok s idx). unfold bind. crush; finish.
   Qed.
 
@@ -480,9 +499,8 @@ Section UtlruBridge.
     match goal with |- req (bind (foldM ?F _ _) _) _ =>
       assert (G : forall l s n, req (foldM F l (s, n)) (tt_erase_range s l n)) end.
     { clear. induction l as [|k r IH]; intros s n; simpl; auto.
-      rewrite mit_find_some. unfold tt_erase, mit_find, mit_second.
-      destruct (assoc k (tt_index s)) as [idx|] eqn:A; cbn [bind]; [|apply IH].
-      rewrite A. cbn [bind]. callee (g_do_erase_ok s idx).
+      unfold tt_erase. found k s idx A; [|apply IH].
+      callee (g_do_erase_ok s idx).
       destruct (g_do_erase s idx) as [s1|], (tt_do_erase s idx) as [s2|]; simpl; intros P; try contradiction; auto.
       subst. apply IH. }
     specialize (G l s 0). revert G.
@@ -532,30 +550,51 @@ Section UtlruBridge.
     destruct (foldM _ _ _) as [[s' n']|]; cbn [bind]; destruct (tt_find_range s (map fst l) pk now) as [[s2 os]|]; simpl; auto.
   Qed.
 
-  (* ---- clean_expired_values: the while loop with break against tt_clean_loop (same fuel) ---- *)
+  (* ---- clean_expired_values: the while loop with break against tt_clean_loop (same fuel).  The body of the
+     generated loop is required to equal (up to the reason for UB) the body below, which is how the literal machine
+     reads; g_clean_ok establishes that by case analysis on what the body tests (is the list empty, is the slot in
+     range, has the deadline passed — as a proposition), so it does not matter whether the source writes
+     `if (now >= t) { erase } else { break; }` or `if (now < t) { break; } erase` ---- *)
+  Definition clean_body (now : Z) (s : ttll K V) (n : nat) : res (bool * (ttll K V * nat)) :=
+    do d <- nl_deref (tt_ord s) (nl_begin (tt_ord s));
+    do r <- vref (tt_elems s) d;
+    do e <- vget "m_elements[]" (tt_elems s) r;
+    if (te_expire e <=? now)%Z then (do s1 <- g_do_erase s d; Ok (true, (s1, S n))) else Ok (false, (s, n)).
+
   Lemma g_clean_loop now C B :
     (forall (s : ttll K V) (n : nat), C (s, n) = Ok (0 <? tt_used s)) ->
-    (forall (s : ttll K V) (n : nat), B (s, n) =
-       (do d <- nl_deref (tt_ord s) (nl_begin (tt_ord s));
-        do r <- vref (tt_elems s) d;
-        do e <- vget "m_elements[]" (tt_elems s) r;
-        if (te_expire e <=? now)%Z then (do s1 <- g_do_erase s d; Ok (true, (s1, S n))) else Ok (false, (s, n)))) ->
+    (forall (s : ttll K V) (n : nat), req (B (s, n)) (clean_body now s n)) ->
     forall f s n, req (whileB f C B (s, n)) (tt_clean_loop true f s now n).
   Proof.
     intros HC HB. induction f as [|f IH]; intros s n; cbn [whileB tt_clean_loop]; [simpl; auto|].
     rewrite HC. cbn [bind]. destruct (0 <? tt_used s); [|simpl; auto].
-    rewrite HB, nl_deref_begin. destruct (tt_ord s) as [|[z idx] r]; [simpl; auto|]. cbn [bind]. unfold vref, vget.
-    destruct (nth_error (tt_elems s) idx) as [e|] eqn:Nx; cbn [bind]; [|simpl; auto]. rewrite Nx. cbn [bind].
-    destruct (te_expire e <=? now)%Z; [|simpl; auto].
-    callee (g_do_erase_ok s idx). destruct (g_do_erase s idx) as [s1|], (tt_do_erase s idx) as [s2|]; cbn [bind]; intros P; try contradiction; auto.
-    subst. apply IH.
+    pose proof (HB s n) as Hb. unfold clean_body in Hb. rewrite nl_deref_begin in Hb.
+    destruct (tt_ord s) as [|[z idx] r]; cbn [bind] in Hb.
+    { destruct (B (s, n)); simpl in Hb; [contradiction|simpl; auto]. }
+    unfold vref, vget in *.
+    destruct (nth_error (tt_elems s) idx) as [e|] eqn:Nx; cbn [bind] in *.
+    2:{ destruct (B (s, n)); simpl in Hb; [contradiction|simpl; auto]. }
+    rewrite Nx in Hb. cbn [bind] in Hb.
+    destruct (te_expire e <=? now)%Z.
+    2:{ destruct (B (s, n)) as [[go [s1 n1]]|]; simpl in Hb; [|contradiction]. inversion Hb; subst. simpl. auto. }
+    callee (g_do_erase_ok s idx).
+    destruct (g_do_erase s idx) as [s1|], (tt_do_erase s idx) as [s2|]; cbn [bind] in *; intros P; try contradiction.
+    - subst s2. destruct (B (s, n)) as [[go [s3 n3]]|]; simpl in Hb; [|contradiction]. inversion Hb; subst. cbn [bind]. apply IH.
+    - destruct (B (s, n)); simpl in Hb; [contradiction|simpl; auto].
   Qed.
 
   Lemma g_clean_ok now (s : ttll K V) : req (g_clean_expired_values now s) (tt_clean true s now).
   Proof.
     unfold g_clean_expired_values, tt_clean. cbv zeta.
     match goal with |- req (bind (whileB ?f ?C ?B _) _) _ =>
-      pose proof (g_clean_loop now C B ltac:(intros; cbv beta iota; f_equal; beq) (fun _ _ => eq_refl) f s 0) as G end.
+      assert (HC : forall (s0 : ttll K V) (n0 : nat), C (s0, n0) = Ok (0 <? tt_used s0))
+        by (intros; cbv beta iota; f_equal; beq);
+      assert (HB : forall (s0 : ttll K V) (n0 : nat), req (B (s0, n0)) (clean_body now s0 n0));
+      [ | pose proof (g_clean_loop now C B HC HB f s 0) as G; clear HC HB ] end.
+    { clear. intros s0 n0. cbv beta iota zeta. unfold clean_body. rewrite !nl_deref_begin.
+      destruct (tt_ord s0) as [|[z idx] r]; cbn [bind]; [simpl; auto|]. unfold vref, vget.
+      destruct (nth_error (tt_elems s0) idx) as [e|] eqn:Nx; cbn [bind]; [|simpl; auto]. rewrite ?Nx. cbn [bind].
+      zcases; first [ apply req_refl | destruct (g_do_erase s0 idx); simpl; repeat f_equal; lia ]. }
     revert G. destruct (whileB _ _ _ _) as [[s' n']|]; cbn [bind]; auto.
   Qed.
 
